@@ -654,6 +654,26 @@ impl Runner {
                 }
                 format!("{pumped}:{}", fired.is_some())
             }
+            Op::ReAddPublisher { inst, ca } => {
+                let req = {
+                    let i = self.world.inst(inst);
+                    i.enter();
+                    block_on(i.mgr().ca_publisher_req(handle(&ca)))
+                        .map_err(err_string)
+                };
+                let res = match req {
+                    Ok(req) => {
+                        let repo_inst = self.model.ca(inst, &ca)
+                            .map(|c| c.repo_inst).unwrap_or(0);
+                        let repo = self.world.inst(repo_inst);
+                        repo.enter();
+                        block_on(repo.mgr().add_publisher(req, ADMIN))
+                            .map(|_| ()).map_err(err_string)
+                    }
+                    Err(err) => Err(err),
+                };
+                Self::label(&res)
+            }
             Op::RemovePublisher { inst, ca } => {
                 let i = self.world.inst(inst);
                 i.enter();
@@ -663,6 +683,9 @@ impl Runner {
                     ).map_err(err_string),
                     Err(_) => Err("handle".to_string()),
                 };
+                if res.is_ok() {
+                    self.ext.c19.server_wiped.insert(ca.clone());
+                }
                 Self::label(&res)
             }
             Op::Partition { .. } | Op::Heal { .. } | Op::NetCut
